@@ -587,3 +587,37 @@ def run(F, rep):
     # ------------------------------------------------------------------ F: failing results are explained
     import faillog
     faillog.run_c15(F, rep)
+
+    # ------------------------------------------------------------------ V: the level of an issue is fixed before it is filed
+    rep.rule('C15.V1', 'Issue::IssueImpl::setLevel is called only on an issue that has just been created in the same function and has not been handed to addIssue yet: the logger files an issue under errors/warnings/messages '
+                       'when it is added, so a level changed afterwards (or on an issue read back from a logger) disagrees with errorCount()/warningCount()/error(i)')
+    from faillog import _can_reach as _cr15
+    n_v = 0
+    for g in F.funcs.values():
+        if '/src/' not in g.file:
+            continue
+        for c in g.walk():
+            if not (c.get('k') == 'Call' and c.get('mc') and c.get('fn') == 'setLevel' and (c.get('cls') or '').endswith('IssueImpl')):
+                continue
+            n_v += 1
+            roots = [x for x in walk(c['c'][0]) if x.get('k') == 'Ref' and x.get('dk') in ('local', 'parm')]
+            r = roots[0] if roots else None
+            fresh = False
+            if r is not None and r.get('dk') == 'local':
+                inits = [v['c'][0] for v in g.walk() if v.get('k') == 'Var' and v.get('d') == r['d'] and v.get('c')]
+                fresh = bool(inits) and all(any(x.get('k') == 'Call' and (x.get('fn') == 'create' and 'Issue' in (x.get('callee') or '') or (x.get('fn') or '').startswith('makeIssue')) for x in walk(i_)) for i_ in inits)
+            key = '%s|%s' % (g.short.split('::')[-1], render(c)[:50])
+            if not fresh:
+                rep.fail('C15.V1', key, g.where(c), '%s changes the level of an issue it did not create (`%s`): an issue that is already filed in a logger keeps its old place in the error/warning/message lists' % (g.short, render(c['c'][0])[:40]))
+                continue
+            cfg = g.cfg_for(c)
+            adds = [a for a in g.walk() if a.get('k') == 'Call' and a.get('fn') == 'addIssue' and any(x.get('k') == 'Ref' and x.get('d') == r['d'] for x in walk(a))]
+            from engines import _all_paths_pass as _app15
+            decls = [v['i'] for v in g.walk() if v.get('k') == 'Var' and v.get('d') == r['d']] + [p_['i'] for v in g.walk() if v.get('k') == 'Var' and v.get('d') == r['d'] for p_ in [g.parent(v)] if p_ is not None]
+            # a path from addIssue(x) back to this setLevel that does not pass the declaration of x (a new issue per loop iteration passes it)
+            late = [a for a in adds if cfg is not None and _cr15(cfg, a, c) and not _app15(cfg, a, c, decls)]
+            rep.check(not late, 'C15.V1', key, g.where(c), '%s sets the level at line %s after the issue was added at line %s' % (g.short, c.get('l'), late[0].get('l') if late else ''), 'set before addIssue')
+    if n_v < 15:
+        raise AnalysisBroken('C15.V1: only %d setLevel calls found (21 confirmed)' % n_v)
+
+
